@@ -11,6 +11,7 @@ import json
 import os
 import random
 import re
+import signal
 from pathlib import Path
 
 from tlc import MachineryError, run_tlc
@@ -19,7 +20,21 @@ VERIF = Path(__file__).resolve().parent.parent
 CODE = {"-": 0, "A": 1, "C": 2, "G": 3, "T": 4}
 
 
+class Absurd(Exception):
+    pass
+
+
+def _on_alarm(signum, frame):
+    raise TimeoutError("call exceeded 10s")
+
+
 def enc(text):
+    """Gapped text (or an Aligned / sequence object) -> codes; objects claiming an absurd length are
+    never rendered."""
+    if not isinstance(text, str):
+        n = len(text)
+        if n < 0 or n > 4096:
+            raise Absurd(f"object of claimed length {n}")
     return [CODE[c] for c in str(text)]
 
 
@@ -54,11 +69,15 @@ def record(seed, nalign):
     def ev(op, frm, args, call):
         """call() makes the real call; an exception is recorded as the outcome (and will be rejected)."""
         exc = ""
+        signal.signal(signal.SIGALRM, _on_alarm)
+        signal.setitimer(signal.ITIMER_REAL, 10)  # a hanging call is recorded as a raised one
         try:
             to = call()
             to = enc(to) if isinstance(to, str) else to
         except Exception as ex:
             to, exc = [], f"{type(ex).__name__}: {ex}"[:200]
+        finally:
+            signal.setitimer(signal.ITIMER_REAL, 0)
         events.append({"op": op, "from": enc(frm), "args": args, "to": to, "ok": not exc, "exc": exc})
 
     for _ in range(nalign):
@@ -68,57 +87,57 @@ def record(seed, nalign):
         # --- Alignment level: every row goes through Aligned.__getitem__ / rc
         x, y = sorted((rnd.randint(-n, n), rnd.randint(-n, n)), key=lambda v: v + n if v < 0 else v)
         for name, text in rows.items():
-            ev("Slice", text, [x, y], lambda: str(aln[x:y].named_seqs[name]))
+            ev("Slice", text, [x, y], lambda: enc(aln[x:y].named_seqs[name]))
         for name, text in rows.items():
-            ev("Rc", text, [], lambda: str(aln.rc().named_seqs[name]))
+            ev("Rc", text, [], lambda: enc(aln.rc().named_seqs[name]))
         # --- Aligned level
         for name, text in rows.items():
             al = aln.named_seqs[name]
             for _ in range(4):
                 a, b = rnd.randint(-n, n), rnd.randint(-n, n)
-                ev("Slice", text, [a, b], lambda: str(al[a:b]))
+                ev("Slice", text, [a, b], lambda: enc(al[a:b]))
             i = rnd.randint(-n, n - 1)
-            ev("Index", text, [i], lambda: str(al[i]))
-            ev("Rc", text, [], lambda: str(al.rc()))
-            ev("Unchanged", text, [], lambda: str(al))  # the calls above were queries
+            ev("Index", text, [i], lambda: enc(al[i]))
+            ev("Rc", text, [], lambda: enc(al.rc()))
+            ev("Unchanged", text, [], lambda: enc(al))  # the calls above were queries
             # a history on ONE derived object: the reverse complement is sliced repeatedly and must
             # keep reading the same after every call
             try:
                 rcd = al.rc()
-                rtext = str(rcd)
+                rtext = dec(enc(rcd))
             except Exception:
                 rcd = None
             if rcd is not None and set(rtext) <= set(CODE):
                 for _ in range(4):
                     a, b = rnd.randint(-n, n), rnd.randint(-n, n)
-                    ev("Slice", rtext, [a, b], lambda: str(rcd[a:b]))
-                    ev("Unchanged", rtext, [], lambda: str(rcd))
-                ev("Rc", rtext, [], lambda: str(rcd.rc()))
-                ev("Unchanged", text, [], lambda: str(al))
+                    ev("Slice", rtext, [a, b], lambda: enc(rcd[a:b]))
+                    ev("Unchanged", rtext, [], lambda: enc(rcd))
+                ev("Rc", rtext, [], lambda: enc(rcd.rc()))
+                ev("Unchanged", text, [], lambda: enc(al))
             # slice of a slice / rc of a slice: the map of a derived object
             a, b = sorted((rnd.randint(0, n), rnd.randint(0, n)))
             if b - a >= 2:
                 c, d = sorted((rnd.randint(0, b - a), rnd.randint(0, b - a)))
                 try:
                     part = al[a:b]
-                    ptext = str(part)
+                    ptext = dec(enc(part))
                 except Exception:
                     part = None
                 if part is not None and set(ptext) <= set(CODE):
-                    ev("Slice", ptext, [c, d], lambda: str(part[c:d]))
-                    ev("Rc", ptext, [], lambda: str(part.rc()))
-                    ev("Unchanged", ptext, [], lambda: str(part))
+                    ev("Slice", ptext, [c, d], lambda: enc(part[c:d]))
+                    ev("Rc", ptext, [], lambda: enc(part.rc()))
+                    ev("Unchanged", ptext, [], lambda: enc(part))
             # feature-map indexing: 1..3 ordered segments in alignment coordinates
             segs = rand_segments(rnd, n, rnd.randint(1, 3))
             if segs:
                 fm = FeatureMap(spans=[Span(s, e) for s, e in segs], parent_length=n)
-                ev("Joined", text, [segs], lambda: str(al[fm]))
+                ev("Joined", text, [segs], lambda: enc(al[fm]))
             # concatenation of two aligned sequences holding different data
             # (a different row: Aligned.__add__ of two objects sharing one data object keeps the
             # data of the first only - an Aligned-level matter outside the map layer)
             oname = rnd.choice(sorted(set(rows) - {name}))
             other = aln.named_seqs[oname]
-            ev("Concat", text, [enc(rows[oname])], lambda: str(al + other))
+            ev("Concat", text, [enc(rows[oname])], lambda: enc(al + other))
             j = rnd.randint(-n, n)
             ev("SeqIndex", text, [j], lambda: [int(al.map.get_seq_index(j))])
         # --- dotplot: gaps common to two rows are removed from both maps
@@ -132,7 +151,7 @@ def record(seed, nalign):
         if set(rows[n1]) != {"-"} and set(rows[n2]) != {"-"}:
             def prep(which):
                 ig1, ig2, u1, u2 = _prep_seqs(get_moltype("dna"), s1, s2, True)
-                return str(Aligned(ig1, u1)) if which == 1 else str(Aligned(ig2, u2))
+                return enc(Aligned(ig1, u1)) if which == 1 else enc(Aligned(ig2, u2))
 
             ev("Minus", rows[n1], [enc(rows[n2])], lambda: prep(1))
             ev("Minus", rows[n2], [enc(rows[n1])], lambda: prep(2))
